@@ -44,7 +44,7 @@ static const char *const kind_names[] = {"connect", "end", "bytes", "msg", "add"
                                           "reply", "config", "info", "auth", "passwd", "advance", "wplan", "drain", "fault", "chunk", "junk", "mutreq", "rawreq", "batch", "prefix", "partial", "wsframe"};
 
 enum ReplyMode { RP_RESULT = 0, RP_ERROR = 1, RP_FORGED = 2, RP_DUPLICATE = 3, RP_OTHERS_RID = 4, RP_NMODES };
-enum IdMode { ID_NUM = 0, ID_STR = 1, ID_NONE = 2 };
+enum IdMode { ID_NUM = 0, ID_STR = 1, ID_NONE = 2, ID_LONG = 3 }; // ID_LONG: string ids of 70+ bytes that share their first 70 bytes
 
 struct Op {
 	int kind = INFO;
@@ -76,6 +76,7 @@ struct Scenario {
 	int fail_alloc = -1;     // >= 0: the allocation with this index (counted from the idle baseline) fails
 	std::vector<int> fail_allocs; // further failing allocation indices (multi-fault runs)
 	std::vector<std::vector<int>> variants; // C09: alternative schedules {dribble, chunk_all, junk_all, early_prefix} that must give identical output
+	int batching = 0;        // != 0: consecutive single operations of distinct connections are delivered in one readiness batch (same processing order)
 	int dribble = 0;         // != 0: in single-operation steps every delivery is split in two arrivals (second after the daemon went idle)
 };
 
@@ -159,6 +160,7 @@ inline js::Value to_json(const Scenario &sc)
 	if (sc.chunk_all) o.set("chunk_all", js::Value::num(sc.chunk_all));
 	if (sc.junk_all >= 0) o.set("junk_all", js::Value::num(sc.junk_all));
 	if (sc.early_prefix) o.set("early_prefix", js::Value::num(sc.early_prefix));
+	if (sc.batching) o.set("batching", js::Value::num(sc.batching));
 	if (!sc.variants.empty()) { js::Value vs = js::Value::arr(); for (auto &v : sc.variants) { js::Value a = js::Value::arr(); for (int x : v) a.push(js::Value::num(x)); vs.push(a); } o.set("variants", vs); }
 	js::Value ops = js::Value::arr();
 	for (auto &op : sc.ops) ops.push(to_json(op));
@@ -186,7 +188,7 @@ inline bool from_json(const js::Value &o, Scenario &sc)
 	sc.dribble = geti(o, "dribble");
 	sc.fail_alloc = geti(o, "fail_alloc", -1);
 	if (auto *fa = o.get("fail_allocs")) for (auto &e : fa->a) sc.fail_allocs.push_back((int)e.d);
-	sc.chunk_all = geti(o, "chunk_all"); sc.junk_all = geti(o, "junk_all", -1); sc.early_prefix = geti(o, "early_prefix");
+	sc.chunk_all = geti(o, "chunk_all"); sc.junk_all = geti(o, "junk_all", -1); sc.early_prefix = geti(o, "early_prefix"); sc.batching = geti(o, "batching");
 	if (auto *vs = o.get("variants")) for (auto &v : vs->a) { std::vector<int> x; for (auto &e : v.a) x.push_back((int)e.d); sc.variants.push_back(x); }
 	auto *ops = o.get("ops");
 	if (!ops) return false;
